@@ -1,0 +1,90 @@
+//! Verification hooks (feature `verif-hooks`, off by default).
+//!
+//! Read-only probes into otherwise private state and a loop-iteration budget ("fuel") that turns
+//! a potential endless loop inside `poll()` into a deterministic, recognisable panic.  Nothing in
+//! here changes the behaviour of the stack as long as the fuel is not exhausted.
+
+use std::cell::Cell;
+
+thread_local! {
+    static FUEL: Cell<u64> = const { Cell::new(u64::MAX) };
+    static BURNED: Cell<u64> = const { Cell::new(0) };
+}
+
+/// Message prefix of the panic raised when the loop fuel is exhausted.
+pub const FUEL_PANIC: &str = "verif-hooks: loop fuel exhausted";
+
+/// Set the loop-iteration budget for the current thread.
+pub fn set_fuel(fuel: u64) {
+    FUEL.with(|f| f.set(fuel));
+}
+
+/// Remaining loop-iteration budget of the current thread.
+pub fn fuel() -> u64 {
+    FUEL.with(|f| f.get())
+}
+
+/// Total number of loop iterations counted on the current thread.
+pub fn burned() -> u64 {
+    BURNED.with(|f| f.get())
+}
+
+#[inline]
+pub(crate) fn burn(site: &'static str) {
+    BURNED.with(|b| b.set(b.get().wrapping_add(1)));
+    FUEL.with(|f| {
+        let left = f.get();
+        if left == 0 {
+            // Refill so that unwinding code (e.g. Debug impls in panic messages) does not panic again.
+            f.set(u64::MAX);
+            panic!("{} in {}", FUEL_PANIC, site);
+        }
+        if left != u64::MAX {
+            f.set(left - 1);
+        }
+    });
+}
+
+/// Snapshot of the private state of an [`FdlActiveStation`][`crate::fdl::FdlActiveStation`].
+#[derive(Debug, Clone, Copy, PartialEq, Eq, Hash)]
+pub struct FdlProbe {
+    /// Name of the state machine state
+    pub state: &'static str,
+    /// Sub-state: pass attempt (1..=3), claim step (1..=4) or 0
+    pub sub: u8,
+    /// Address a reply is awaited from (AwaitDataResponse, AwaitStatusResponse, claim scan)
+    pub awaiting: Option<u8>,
+    /// Whether the station believes to hold the token
+    pub have_token: bool,
+    /// Next address to poll in the GAP (`None` while waiting)
+    pub gap_poll_address: Option<u8>,
+    /// Rotations waited since the last GAP sweep (`None` while polling)
+    pub gap_wait_count: Option<u8>,
+    /// Time of the last token receipt (us)
+    pub last_token_time: i64,
+    /// End of the token hold time of the current visit (us)
+    pub end_token_hold_time: i64,
+    /// Index of the application that is next to transmit
+    pub next_application: usize,
+    /// Number of received bytes the station knows to be pending
+    pub pending_bytes: usize,
+    /// Last known bus activity (us)
+    pub last_bus_activity: Option<i64>,
+}
+
+/// Snapshot of the private state of a [`Peripheral`][`crate::dp::Peripheral`].
+#[derive(Debug, Clone, Copy, PartialEq, Eq, Hash)]
+pub struct PeripheralProbe {
+    pub state: &'static str,
+    pub retry_count: u8,
+    /// 0 = First, 1 = High, 2 = Low, 3 = Inactive
+    pub fcb: u8,
+    pub diag_needed: bool,
+}
+
+/// Snapshot of the private state of a [`DpMaster`][`crate::dp::DpMaster`].
+#[derive(Debug, Clone, Copy, PartialEq, Eq, Hash)]
+pub struct DpMasterProbe {
+    /// Storage index of the peripheral whose turn it is (`None`: cycle completed)
+    pub cycle_index: Option<u8>,
+}
